@@ -21,11 +21,20 @@ enum Kind { OtherSessionAttachedOriginal, SameSessionAttachedOriginal, Absent, A
     /// x5chain = [impostor's self-issued certificate, a genuine trusted reader certificate], signed by the impostor
     ImpostorThenGenuine,
     /// x5chain = [genuine reader certificate, some unrelated certificate], signed by the genuine reader
-    GenuineThenUnrelated }
-const KINDS: [Kind; 18] = [Kind::ImpostorThenGenuine, Kind::GenuineThenUnrelated, Kind::OtherSessionAttachedOriginal, Kind::SameSessionAttachedOriginal, Kind::Absent, Kind::Authentic, Kind::SigFlipped, Kind::ItemsReencodedAfterSigning, Kind::OtherSession, Kind::OtherItems, Kind::SelfSignedReader, Kind::ExpiredReader,
+    GenuineThenUnrelated,
+    /// a rogue reader's self-made certificate NAMING a configured reader CA whose key is not a P-256 key (issuer name and
+    /// authority key identifier copied from the public CA certificate), signed with the rogue's own key
+    RogueNamingP384Ca }
+const KINDS: [Kind; 19] = [Kind::RogueNamingP384Ca, Kind::ImpostorThenGenuine, Kind::GenuineThenUnrelated, Kind::OtherSessionAttachedOriginal, Kind::SameSessionAttachedOriginal, Kind::Absent, Kind::Authentic, Kind::SigFlipped, Kind::ItemsReencodedAfterSigning, Kind::OtherSession, Kind::OtherItems, Kind::SelfSignedReader, Kind::ExpiredReader,
     Kind::DsCertAsReader, Kind::WrongKey, Kind::PayloadAttached, Kind::AlgEs384, Kind::NoX5chain, Kind::X5chainInProtected];
 
 fn der(c: &x509_cert::Certificate) -> Vec<u8> { use der::Encode; c.to_der().unwrap() }
+
+/// a reader CA whose key is a P-384 key (certificate, subject key identifier)
+fn p384_ca(pki: &Pki) -> (x509_cert::Certificate, Vec<u8>) {
+    let point: Vec<u8> = std::iter::once(4u8).chain((0..96).map(|i| (i * 3 + 2) as u8)).collect();
+    world::with_p384_key(&world::root_spec("CN=readerca384,C=US", &pki.reader_ca_key), &point, &pki.reader_ca_key)
+}
 
 fn items_request(doc_type: &str, elems: &[&str], indefinite: bool) -> Vec<u8> {
     let ns = Value::Map(elems.iter().map(|e| (Value::Text(e.to_string()), Value::Bool(false))).collect());
@@ -61,6 +70,10 @@ fn build(kind: Kind, idx: usize, pki: &Pki, transcript: &Value, other_transcript
         Kind::ExpiredReader => { let mut s = world::leaf_spec("CN=reader,C=US", "CN=readerca,C=US", &pki.reader_key, &pki.reader_ca_key, world::EKU_READER); s.not_before = -7200; s.not_after = -3600; cert = world::build_cert(&s, &pki.reader_key, &pki.reader_ca_key); }
         Kind::DsCertAsReader => { cert = pki.ds.clone(); key = pki.ds_key.clone(); }
         Kind::WrongKey => { key = world::key_from(rng); }
+        Kind::RogueNamingP384Ca => { key = world::key_from(rng);
+            let mut sp = world::leaf_spec("CN=reader,C=US", "CN=readerca384,C=US", &key, &key, world::EKU_READER);
+            for e in sp.exts.iter_mut() { if e.oid == world::OID_AKI { *e = world::ext_aki(&p384_ca(pki).1); } }
+            cert = world::build_cert(&sp, &key, &key); }
         Kind::ImpostorThenGenuine => { key = world::key_from(rng); cert = world::build_cert(&world::leaf_spec("CN=reader,C=US", "CN=reader,C=US", &key, &key, world::EKU_READER), &key, &key); }
         _ => {}
     }
@@ -91,6 +104,11 @@ fn build(kind: Kind, idx: usize, pki: &Pki, transcript: &Value, other_transcript
     // facts about the FIRST certificate alone: it is validated as a one-certificate chain
     let chain = if x5p && X5Chain::from_cbor(x5_value.clone()).is_ok() { X5Chain::from_cbor(Value::Bytes(der(&cert))).ok() } else { None };
     let chain_errs = chain.as_ref().map(|c| ValidationRuleset::MdlReaderOneStep.validate(c, registry).errors.len()).unwrap_or(0);
+    // the decisive part of "validates against a configured reader-CA trust anchor", computed here and not by the library: the
+    // first certificate's signature verifies under the P-256 key of some configured reader-CA anchor
+    let anchored = { use der::Encode; let tbs = cert.tbs_certificate.to_der().unwrap(); let sig = p256::ecdsa::Signature::from_der(cert.signature.raw_bytes());
+        registry.anchors.iter().any(|a| matches!(a.purpose, TrustPurpose::ReaderCa) && sig.as_ref().map(|s| VerifyingKey::from_sec1_bytes(a.certificate.tbs_certificate.subject_public_key_info.subject_public_key.raw_bytes()).map(|k| k.verify(&tbs, s).is_ok()).unwrap_or(false)).unwrap_or(false)) };
+    let chain_errs = if chain.is_some() && !anchored { chain_errs.max(1) } else { chain_errs };
     let vk: Option<VerifyingKey> = chain.as_ref().and_then(|c| c.end_entity_public_key::<p256::NistP256>().ok());
     let tbs_device = reader_auth_tbs(transcript, &items, &prot);
     let sp = Signature::from_slice(&sig_bytes);
@@ -103,7 +121,8 @@ pub fn run(ctx: &mut Ctx) {
     let pki = Pki::new(&mut ctx.rng); let other = Pki::new(&mut ctx.rng);
     let mut rng: rand_chacha::ChaCha8Rng = rand::SeedableRng::seed_from_u64(ctx.rng.gen());
     let regs: Vec<(&str, TrustAnchorRegistry)> = vec![("right-reader-ca", pki.reader_registry()), ("empty", TrustAnchorRegistry::default()),
-        ("iaca-purpose-only", pki.registry(&[(&pki.reader_ca, TrustPurpose::Iaca), (&pki.iaca, TrustPurpose::Iaca)])), ("unrelated-reader-ca", other.reader_registry())];
+        ("iaca-purpose-only", pki.registry(&[(&pki.reader_ca, TrustPurpose::Iaca), (&pki.iaca, TrustPurpose::Iaca)])), ("unrelated-reader-ca", other.reader_registry()),
+        ("right-reader-ca-and-a-p384-reader-ca", pki.registry(&[(&pki.reader_ca, TrustPurpose::ReaderCa), (&p384_ca(&pki).0, TrustPurpose::ReaderCa)]))];
     for (rname, reg) in regs {
         let sim = Sim::new(1, &pki, &mut rng, &[MDL], &["family_name"], TrustAnchorRegistry::default(), reg.clone());
         let sim_b = Sim::new(2, &pki, &mut rng, &[MDL], &["family_name"], TrustAnchorRegistry::default(), reg.clone());
